@@ -68,4 +68,5 @@ void harness(void) {
   CG_ENTRY_STATE(sp0);
   (void)verif_val(0); (void)cg_holds(tn, 0); (void)cg_x87_delta(tn);
   gen_expr(&n);
+  REACH("gen_expr returns");
 }
